@@ -48,6 +48,12 @@ def directed():
         base({"9": {"kind": "nest", "tock": 0.0, "always": True, "kids": [1, 2]},
               "1": {"kind": "func", "script": [Y(), Y(es=[["ext", 9, [3, 4]]]), Y(), R()]}, "2": {"kind": "doer", "script": long},
               "3": {"kind": "func", "script": [Y(), Y(), R()]}, "4": {"kind": "doer", "script": [{"es": [], "out": ["x"]}]}}, [9]),
+        # a doer that completed by itself is removed and later added again: it starts a new life (entered by the
+        # extend, first recur in the next cycle), in a Doist and in an always DoDoer, for every leaf kind
+        *[base({"1": {"kind": "func", "script": [Y(), Y(), Y(), Y(es=[["rem", tgt, [2]]]), Y(es=[["ext", tgt, [2]]]), Y(), Y(), Y(), R()]},
+                "2": {"kind": kind, "script": [Y(), Y(), R()]}, **extra}, root, limit=3.0)
+          for kind in ("doer", "doergen", "func", "bound")
+          for tgt, root, extra in ((0, [1, 2], {}), (9, [9], {"9": {"kind": "nest", "tock": 0.0, "always": True, "kids": [1, 2]}}))],
         # same step: remove then extend the same doer again (restart)
         base({"1": {"kind": "func", "script": [Y(), Y(es=[["rem", 0, [2]], ["ext", 0, [2]]]), Y(), Y(), R()]}, "2": {"kind": "doer", "script": long}}, [1, 2]),
     ]
@@ -109,6 +115,13 @@ def check_calls(case, obs):
                 errs.append(("enter", f"extend({rec['ids']}): new doers {new} but Enter events {entered} before extend returned"))
             if any(k == "Recur" for k, i, _ in window):
                 errs.append(("recur-in-extend", "a doer recurred inside extend()"))
+            # a new doer is only entered by extend(): it does not finish there unless its own enter step says so
+            for x in new:
+                dx = case["defs"].get(str(x))
+                if dx and dx["kind"] != "nest" and dx["script"] and dx["script"][0]["out"][0] == "y" and not dx.get("hookraise"):
+                    ks = [k for k, i, _ in window if i == x]
+                    if ks != ["Enter"]:
+                        errs.append(("enter", f"doer {x} added by extend() went through {ks} inside extend(), expected just Enter"))
             if any(h != tyme0 for _, _, h in window):
                 errs.append(("enter", "events inside extend() at a different tyme"))
             if not new and window:
